@@ -284,3 +284,9 @@ def run(ctx: Ctx, repo: Repo, tier: str) -> None:
     rule_traces_to_sets(ctx, repo)
     rule_render_order(ctx, repo)
     rule_rewriters(ctx, repo)
+    # stage conditions of C14 decided in full elsewhere: the query returns each distinct row once, whatever the row order
+    # (C09); generated TypedDict classes of different functions are never merged or dropped by name (C06)
+    from . import c06 as _c06, c09 as _c09
+    ctx.note("R-C09.1-3 and R-C06.4 below are the stage rules of C09 and C06, run here as necessary conditions of C14")
+    _c09.rule_query(ctx, repo)
+    _c06.rule_class_stubs_kept_apart(ctx, repo)
